@@ -2,7 +2,9 @@
 """tools/muttest.py <ID> <mutations.json> [--tests]
 hand-written mutation battery: for each entry {"name", "file", "old", "new"} make a scratch worktree of /repo at
 HEAD under /tmp/mut, replace the first occurrence of old by new in file, optionally run the repository tests, run
-`./check <ID> --tier quick` against it and report caught / missed.  Worktrees are removed again."""
+`./check <ID> --tier quick` against it and report caught / missed.  Worktrees are removed again.
+MUT_BASE=<dir> (optional): the *.patch files of that directory are applied (sorted, `git apply`) to the worktree before
+the mutation, i.e. the battery runs on top of a patch series that is not committed yet."""
 import json
 import os
 import subprocess
@@ -19,6 +21,9 @@ for k, m in enumerate(muts):
     subprocess.run(['git', '-C', '/repo', 'worktree', 'remove', '--force', wt], capture_output=True)
     subprocess.run(['git', '-C', '/repo', 'worktree', 'add', '--detach', wt, 'HEAD'], check=True, capture_output=True)
     try:
+        if os.environ.get('MUT_BASE'):
+            for patch in sorted(Path(os.environ['MUT_BASE']).glob('*.patch')):
+                subprocess.run(['git', '-C', wt, 'apply', str(patch)], check=True, capture_output=True)
         f = Path(wt) / m['file']
         src = f.read_text()
         if m['old'] not in src:
